@@ -15,6 +15,7 @@ package main
 
 import (
 	"fmt"
+	"net/url"
 	"sort"
 	"strconv"
 	"strings"
@@ -87,6 +88,9 @@ func textOf(tok string) string {
 			}
 		}
 	}
+	if t, ok := oddTexts[tok]; ok {
+		return t
+	}
 	switch tok {
 	case "e":
 		return ""
@@ -97,6 +101,9 @@ func textOf(tok string) string {
 	}
 	return tok
 }
+
+// texts with characters that mean something in a URL (client suite: metric names, path segments)
+var oddTexts = map[string]string{"odd1": "we?ird", "odd2": "sp ace", "odd3": "per%41cent", "odd4": "ha#sh", "odd5": "pl+us", "odd6": "ünï"}
 
 func safeLiteral(s string) bool {
 	if s == "" || len(s) > 40 {
@@ -121,6 +128,11 @@ func tokOfText(s string) string {
 	for k, t := range invalidTexts {
 		if t == s {
 			return "x" + strconv.Itoa(k)
+		}
+	}
+	for k, t := range oddTexts {
+		if t == s {
+			return k
 		}
 	}
 	switch s {
@@ -187,6 +199,17 @@ func segAttrs(tok string) string {
 	}
 	if p, err := peer.Decode(txt); err == nil {
 		out += ":p" + strconv.Itoa(peerIdx(p))
+	}
+	// how the text arrives when it is put into a URL path without escaping (an oracle for the INPUT:
+	// net/url's reading of the raw text; used for the client's unescaped path components)
+	if u, err := url.Parse("http://h/pre/" + txt + "/post"); err == nil {
+		arr := strings.TrimPrefix(u.Path, "/pre/")
+		if i := strings.Index(arr, "/"); i >= 0 {
+			arr = arr[:i]
+		}
+		if arr != txt {
+			out += ":w" + tokOfText(arr)
+		}
 	}
 	return out
 }
